@@ -65,14 +65,7 @@ Init == /\ par \in InitShapes
 Located(a) == a.ok /\ a.n \in Committed
 
 (* the cache after add_command(a), as a function of the cache before *)
-After(c, a) ==
-  IF ~Located(a) THEN c
-  ELSE LET n == a.n
-           Blocks(old) == old = n \/ n \in anc[old]       \* keep old, do not add
-           Evicted(old) == ~Blocks(old) /\ old \in anc[n]
-           kept == SelectSeq(c, LAMBDA old : ~Evicted(old))
-           add == \A i \in 1..Len(c) : ~Blocks(c[i])
-       IN IF add /\ Len(kept) < Cap THEN Append(kept, n) ELSE kept
+After(c, a) == CacheAdd(anc, Committed, Cap, c, a.n, a.ok)       \* SyncDag: the transcription
 
 AddCommand(a) ==
   /\ depth < MaxDepth
